@@ -561,10 +561,14 @@ class UnionProvider(LoaderProvider, DumperProvider):
         literal_dumper: Dumper,
         literal_cases: Sequence[Any],
     ) -> Dumper:
+        # objects of other classes can be equal to the listed values (`Decimal(200) == 200`, `True == 1`),
+        # they must be dumped by their own class
         def union_dumper_with_literal(data):
-            if data in literal_cases:
-                return literal_dumper(data)
-            return dumper_type_dispatcher.dispatch(type(data))(data)
+            data_type = type(data)
+            for case in literal_cases:
+                if data_type is type(case) and data == case:
+                    return literal_dumper(data)
+            return dumper_type_dispatcher.dispatch(data_type)(data)
 
         return union_dumper_with_literal
 
